@@ -412,7 +412,9 @@ def par_batch(cmd, seqs, timeout=1800, env=None):
     k = pool_size()
     if k == 1 or len(seqs) < 8:
         return run_batch(cmd, seqs, timeout=timeout, env=env)
-    pcs = _pieces(len(seqs), k, per=3)
+    # one piece per worker: every harness process answers `skipped` after MAX_TIMEOUTS hanging cases, so the time a
+    # hanging receiver can cost is bounded per PROCESS -- few processes, small bound
+    pcs = _pieces(len(seqs), k, per=1)
     with ThreadPoolExecutor(max_workers=k) as ex:
         parts = list(ex.map(lambda ab: run_batch(cmd, seqs[ab[0]:ab[1]], timeout=timeout, env=env), pcs))
     return [r for p in parts for r in p]
